@@ -458,3 +458,13 @@ func sortedKeys(m map[string]int) []string {
 	sort.Strings(ks)
 	return ks
 }
+
+
+// modJoin is the import path of a package given relative to the module root
+// ("." is the root package).
+func modJoin(mod, rel string) string {
+	if rel == "." || rel == "" {
+		return mod
+	}
+	return mod + "/" + rel
+}
